@@ -115,11 +115,19 @@ package mapping
 // mismatch error - it is never converted silently; a same-kind value is checked against options= before storing.
 //@ func (*Unmarshaler).processFieldPrimitive
 //@   prop C05
-//@   opaque Deref, fillSlice, fillMap, processFieldPrimitiveWithJSONNumber, validateValueInOptions, fillWithSameType, options, newTypeMismatchError
+//@   opaque fillSlice, fillMap, processFieldPrimitiveWithJSONNumber, validateValueInOptions, fillWithSameType, options, newTypeMismatchError
 //@   requires u != nil && opts != nil
 //@   let typeKind = ret(Kind, 0, 1)
 //@   let valueKind = ret(Kind, 0, 2)
 //@   let structural = typeKind == 23 && valueKind == 23 || typeKind == 21 && valueKind == 21
+// the list / map fillers take the element and key types straight from the type they are given, so that type must
+// itself be the list / map type (for a pointer field: its pointee), not merely dereference to one (an unsettable
+// pointer field is handed on as it is: the fillers refuse unsettable values before looking at the type)
+//@   observe FieldKind = tkind(fieldType.tag, fieldType.val)
+//@   observe TypeKind = ret(Kind, 0, 1)
+//@   replay mapping_ptrcontainer
+//@   ensures [list-filler-gets-a-list-type] calls(fillSlice) == 1 && (calls(CanSet) == 0 || ret(CanSet)) ==> tkind(arg(fillSlice, 1).tag, arg(fillSlice, 1).val) == 23
+//@   ensures [map-filler-gets-a-map-type] calls(fillMap) == 1 && (calls(CanSet) == 0 || ret(CanSet)) ==> tkind(arg(fillMap, 1).tag, arg(fillMap, 1).val) == 21
 //@   ensures [json-number-path] !structural && typeis(mapValue, json.Number) ==> calls(u.processFieldPrimitiveWithJSONNumber) == 1 && result == ret(processFieldPrimitiveWithJSONNumber) && calls(fillWithSameType) == 0
 //@   ensures [same-kind-checked-then-stored] !structural && !typeis(mapValue, json.Number) && typeKind == valueKind && ret(validateValueInOptions) == nil ==> calls(fillWithSameType) == 1 && arg(fillWithSameType, 2) == mapValue && result == ret(fillWithSameType) && before(validateValueInOptions, fillWithSameType)
 //@   ensures [never-stored-without-the-options-check] calls(fillWithSameType) >= 1 ==> calls(validateValueInOptions, mapValue, ret(options)) == 1 && ret(validateValueInOptions) == nil && before(validateValueInOptions, fillWithSameType)
@@ -196,8 +204,12 @@ package mapping
 // never panics on an ill-typed document value: every type assertion and index below is proved to succeed
 //@   safety bounds typeassert divzero
 //@   replay mapping_illtyped
-//@   opaque Deref, processFieldStruct, fillMap, fillMapFromString, fillSliceFromString, fillDurationValue, processFieldPrimitive
+//@   opaque processFieldStruct, fillMap, fillMapFromString, fillSliceFromString, fillDurationValue, processFieldPrimitive
 //@   requires u != nil
+//@   observe FieldKind = tkind(fieldType.tag, fieldType.val)
+//@   observe TypeKind = ret(Kind, 0, 1)
+//@   ensures [map-filler-gets-a-map-type] calls(fillMap) == 1 && (calls(CanSet) == 0 || ret(CanSet)) ==> tkind(arg(fillMap, 1).tag, arg(fillMap, 1).val) == 21
+//@   ensures [string-list-filler-gets-a-list-type] calls(fillSliceFromString) == 1 && (calls(CanSet) == 0 || ret(CanSet)) ==> tkind(arg(fillSliceFromString, 1).tag, arg(fillSliceFromString, 1).val) == 23
 //@   let typeKind = ret(Kind, 0, 1)
 //@   let valueKind = ret(Kind, 0, 2)
 //@   let sv = unbox(arg(processFieldStruct, 3), ptr(simpleValuer))
@@ -531,3 +543,11 @@ package mapping
 //@   ensures [t1] len(segs) > 1 ==> calls(parseSegments) == 1
 //@   ensures [t2] result2 == nil && calls(parseOption) >= 1 ==> calls(parseSegments) == 1
 //@   ensures [t3] result2 == nil && result1 != nil ==> calls(parseSegments) == 1
+
+// ---------------- the reflect kind model (C05) ----------------
+// Kind() and Elem() of a reflect.Type are functions of the type value (tkind / telemtag / telemval, assumed in
+// /verif/contracts/ext/std.spec); Deref is proved against them and its contract is what the dispatchers below use.
+//@ func Deref
+//@   prop C05
+//@   ensures [non-pointer-as-is] tkind(t.tag, t.val) != 22 ==> result == t
+//@   ensures [pointer-gives-pointee] tkind(t.tag, t.val) == 22 ==> result.tag == telemtag(t.tag, t.val) && result.val == telemval(t.tag, t.val)
